@@ -5,7 +5,7 @@ import H3.Props.C16
 /-! # C08 — GOAWAY identifiers never grow and draw the accept/reject line exactly
 
 Property theorems only.  Model: `H3.Goaway` (server `shutdown`/`accept`, client `poll_close`
-GOAWAY rules and the `send_request` gate; `StreamId + n` is `H3.StreamId.add`, whose
+GOAWAY rules and the two `send_request` gates — on entry and behind `poll_open_bidi`; `StreamId + n` is `H3.StreamId.add`, whose
 saturation is `C16_streamid_add_saturates`).  Oracle: `H3.Spec.Goaway` (RFC 9114 §5.2,
 §7.2.6 over the observable history).
 
